@@ -15,13 +15,19 @@ Record c13case := mkCase {
 Definition has_typenameb (o : list (string * json)) : bool :=
   match assoc "__typename" o with Some (JStr _) => true | _ => false end.
 
+Fixpoint typed_elemb (P : list (string * json) -> bool) (x : json) {struct x} : bool :=
+  match x with
+  | JObj m => P m
+  | JArr l => forallb (typed_elemb P) l
+  | _ => true
+  end.
 Fixpoint typed_atb (path : list string) (o : list (string * json)) : bool :=
   match path with
   | [] => has_typenameb o
   | p :: rest =>
       match assoc p o with
       | Some (JObj m) => typed_atb rest m
-      | Some (JArr l) => forallb (fun x => match x with JObj m => typed_atb rest m | _ => true end) l
+      | Some (JArr l) => forallb (typed_elemb (typed_atb rest)) l      (* lists of lists included *)
       | _ => true
       end
   end.
